@@ -161,7 +161,7 @@ pub fn c15_direct(thorough: bool, seed: u64, acc: &mut Acc) {
                             }
                         };
                         acc.count("direct_calls", 1);
-                        acc.nontrivial.insert(hash128(format!("{}{}{:?}{}{}", mk.name(), method, e, rate, unsafe_mode).as_bytes()));
+                        acc.ins_nontrivial(hash128(format!("{}{}{:?}{}{}", mk.name(), method, e, rate, unsafe_mode).as_bytes()));
                         if rate == 0.0 && fired {
                             acc.violate(violation(
                                 "C15",
@@ -605,8 +605,8 @@ pub fn c16(thorough: bool, seed: u64) -> CheckOutput {
                         }
                     }
                 }
-                acc.nontrivial.insert(hash128(format!("{:?}{}", e, rate).as_bytes()));
-                acc.distinct.insert(hash128(format!("{:?}{}", e, rate).as_bytes()));
+                acc.ins_nontrivial(hash128(format!("{:?}{}", e, rate).as_bytes()));
+                acc.ins_distinct(hash128(format!("{:?}{}", e, rate).as_bytes()));
             }
         },
         |a, b| a.merge(b),
@@ -861,8 +861,8 @@ pub fn c18(thorough: bool, seed: u64) -> CheckOutput {
                 acc.count("prng_states", 1);
             }
             let h = hash128(format!("{:?}", e).as_bytes());
-            acc.distinct.insert(h);
-            acc.nontrivial.insert(h);
+            acc.ins_distinct(h);
+            acc.ins_nontrivial(h);
         },
         |a, b| a.merge(b),
     );
